@@ -22,7 +22,7 @@ RULE = (
     "graph, equal or different inputs, each with its own max_concurrency), map; interleaving of concurrent runs by seeded delays, hold-open release and "
     "ready-shuffle. Reference = the same operation executed alone on freshly compiled objects. Non-trivial = >=2 runs overlapped in simulated time or a "
     "mutating function ran in >=2 runs; distinct = digest of (program shape, history, interleaving)."
-    ' Also: defaults that are dicts holding a mutable value, part of the inputs passed as keyword arguments, structurally identical graphs with different entry-point configuration on shared runners, a mapping node whose inner graph binds an object (clone True/False/list).'
+    ' Also: defaults that are dicts holding a mutable value, part of the inputs passed as keyword arguments, structurally identical graphs with different entry-point configuration on shared runners, a mapping node whose inner graph binds an object (clone True/False/list; wrapper input renamed or not); cache-enabled runners (shared or per-runner InMemoryCache) with cacheable mutating-default nodes.'
 )
 ASSUMPTIONS = ["node functions mutate only their default-valued arguments; bound and provided objects are only read"]
 
@@ -62,7 +62,7 @@ def gen_case(rng: random.Random, tier: str) -> dict:
     for _ in range(rng.randint(3, 8)):
         r = rng.random()
         if r < 0.08:
-            ops.append({"op": "mapnode", "clone": rng.choice([True, False, ["y"]]), "xs": [rng.randint(0, 3) for _ in range(rng.randint(1, 3))], "sync": rng.random() < 0.5, "runner": rng.randrange(2), "cfg": gen.gen_async_cfg(rng)})
+            ops.append({"op": "mapnode", "renamed": rng.random() < 0.5, "clone": rng.choice([True, False, ["y"]]), "xs": [rng.randint(0, 3) for _ in range(rng.randint(1, 3))], "sync": rng.random() < 0.5, "runner": rng.randrange(2), "cfg": gen.gen_async_cfg(rng)})
         elif r < 0.25:
             ops.append({"op": "sync", "g": rng.randrange(2), "runner": rng.randrange(2), "x": rng.randint(0, 2), "kw": rng.random() < 0.4, "ep": rng.random() < 0.3})
         elif r < 0.45:
@@ -78,7 +78,16 @@ def gen_case(rng: random.Random, tier: str) -> dict:
             })
         else:
             ops.append({"op": "map", "g": rng.randrange(2), "runner": rng.randrange(2), "xs": [rng.randint(0, 2) for _ in range(rng.randint(1, 3))], "sync": rng.random() < 0.5, "cfg": gen.gen_async_cfg(rng), "k": rng.choice([None, 1, 2])})
-    return {"progs": progs, "ops": ops}
+    cache = rng.choice([None, None, "shared", "per_runner"])
+    if cache:
+        # cache-enabled runners and cacheable mutating-default nodes: a miss runs the function on its own copies, a hit returns the stored snapshot
+        from hgsim.spec import iter_nodes
+
+        for pr in progs:
+            for nd, _d, _p in iter_nodes(pr):
+                if nd["kind"] == "fn" and nd.get("beh") in ("snapshot", "snapshot_nested") and rng.random() < 0.7:
+                    nd["cache"] = True
+    return {"progs": progs, "ops": ops, "cache": cache}
 
 
 class _Pool:
@@ -100,13 +109,24 @@ class _Pool:
         self.mapnode: dict[tuple, tuple] = {}
         for clone_key, clone in (("T", True), ("F", False), ("L", ["y"])):
             for flav in ("sync", "async"):
-                spec = {"name": "mo", "nodes": [{"kind": "graph", "name": "mp", "map_over": ["x"], "clone": clone, "graph": {"name": "mp", "bind": {"cfgi": {"inner": [7]}}, "nodes": [
-                    {"kind": "fn", "name": "mf", "params": [{"name": "x"}, {"name": "y"}, {"name": "cfgi"}], "outs": ["mo_o"]}], "order": [0]}}], "order": [0]}
-                graph, comp = build(spec, rt, flav)
-                self.comps.append(comp)
-                self.mapnode[(clone_key, flav)] = (graph, comp.nodes["mp"].graph.inputs.bound["cfgi"])
-        self.sync_runners = [make_runner("sync", rt) for _ in range(2)]
-        self.async_runners = [make_runner("async", rt) for _ in range(3)]
+                for ren in (False, True):
+                    # (ren: the wrapper's input for the inner binding is renamed - the binding is then surfaced under the new name)
+                    spec = {"name": "mo", "nodes": [{"kind": "graph", "name": "mp", "map_over": ["x"], "clone": clone, "renames": [{"inputs": {"cfgi": "cfg_outer_name"}}] if ren else [],
+                                                     "graph": {"name": "mp", "bind": {"cfgi": {"inner": [7]}}, "nodes": [
+                        {"kind": "fn", "name": "mf", "params": [{"name": "x"}, {"name": "y"}, {"name": "cfgi"}], "outs": ["mo_o"]}], "order": [0]}}], "order": [0]}
+                    graph, comp = build(spec, rt, flav)
+                    self.comps.append(comp)
+                    self.mapnode[(clone_key, flav, ren)] = (graph, comp.nodes["mp"].graph.inputs.bound["cfgi"])
+        from hypergraph import InMemoryCache
+
+        mode = doc.get("cache")
+        shared = InMemoryCache() if mode == "shared" else None
+
+        def _cache():
+            return shared if mode == "shared" else (InMemoryCache() if mode == "per_runner" else None)
+
+        self.sync_runners = [make_runner("sync", rt, _cache()) for _ in range(2)]
+        self.async_runners = [make_runner("async", rt, _cache()) for _ in range(3)]
         self.defaults0 = {(ci, k): canon(getattr(f, "__defaults__", None)) for ci, c in enumerate(self.comps) for k, f in c.funcs.items()}
 
     def defaults_now(self) -> dict:
@@ -215,7 +235,7 @@ def run_case(doc: dict) -> dict:
             elif op["op"] == "mapnode":
                 flav = "sync" if op["sync"] else "async"
                 ck = "T" if op["clone"] is True else ("F" if op["clone"] is False else "L")
-                g, bound_obj = pool.mapnode[(ck, flav)]
+                g, bound_obj = pool.mapnode[(ck, flav, bool(op.get("renamed")))]
                 inp = {"x": list(op["xs"]), "y": [5, 6]}
                 h0 = len(rt.history)
                 if flav == "sync":
